@@ -17,6 +17,11 @@ expression productions are primitives, and a call from one translated function t
 callee's meaning from the model (Props/C07OperatorIR*.lean prove, function by function, that this
 meaning IS the interpretation of the callee's own regenerated body).
 
+`x.(*BasicLit)` in the comma-ok form looks at the model's expression (`Expr.lit` is a `*BasicLit`; any other
+node and the nil interface give `nil, false`); `lit.IsInteger()` is the model's `litIsInteger` (which
+Props/C09NumberIR.lean `C09_IsInteger_ir` ties to the regenerated body of `(*BasicLit).IsInteger`) and a Go
+panic on a nil `*BasicLit`.
+
 Errors are the model's `Errs`: `joinErrors` is append, `makeErrorOpaque` is `mkOpaque`,
 `isNotFound` is `isNF`, `&parseError{span: s, err: notFoundError{…}}` is `nfAt s`, with a plain
 message `errAt s`, a position-less `fmt.Errorf` is `errNoPos`, `%w` keeps the leaves.
@@ -72,6 +77,7 @@ inductive Val
   | tokPtr (t : Option Token)              -- *Token
   | query                                  -- the string parameter of Parse
   | fn (i : Nat)                           -- the i-th production handed to firstParse
+  | lit (l : Option (Span × TokKind × Bytes))   -- *BasicLit (ValueSpan, Kind, Value)
 
 structure Rec where
   ty : String
@@ -190,6 +196,7 @@ def isNilVal : Val → M Bool
   | .tab t => .ok (Tabular.isNilB t)
   | .stmt s => .ok s.isNone
   | .tokPtr t => .ok t.isNone
+  | .lit l => .ok l.isNone
   | .list l => .ok l.isEmpty
   | .nil => .ok true
   | .col _ | .op _ | .istmt _ | .typedNil | .ref _ => .ok false
@@ -376,6 +383,12 @@ def evalCond (env : Env) : ICond → St → M (Bool × St)
   | .more p, st => do
     let (r, _) ← st.parser p
     pure (!r.isEmpty, st)
+  | .isInteger e, st => do
+    let (x, st1) ← eval env e st
+    match x with
+    | .lit (some (_, k, v)) => pure (litIsInteger k v, st1)
+    | .lit none => goPanic                 -- `lit.Kind` on a nil *BasicLit
+    | _ => stuck
 
 /-! ### statements -/
 
@@ -506,6 +519,15 @@ def exec (env : Env) : IStmt → Nat → St → M (Flow × St)
   | .rangeInit _ _ _, _, _ => stuck
   | .callFn _ _, _, _ => stuck
   | .retLast _, _, _ => stuck
+  | .asType ty lhs e, _, st => do
+    let (x, st1) ← eval env e st
+    if ty == "BasicLit" then
+      match x with
+      | .expr (.lit s k v) => pure (.next, ← assignAll st1 lhs [.lit (some (s, k, v)), .bool true])
+      | .expr _ => pure (.next, ← assignAll st1 lhs [.lit none, .bool false])    -- another node type, or a nil interface
+      | .nil => pure (.next, ← assignAll st1 lhs [.lit none, .bool false])
+      | _ => stuck
+    else stuck
 
 def execBlock (env : Env) : List IStmt → Nat → St → M (Flow × St)
   | [], _, st => .ok (.next, st)
